@@ -6,9 +6,20 @@
    no event of the history promotes a non-winning body (tombstoning the winning branch of a conflicted document);
    it holds for EVERY history of a conflict-free database (C14_conflict_free_never_promotes).
    Byte identity, digests and lengths are not modelled (contents are interned): they are harness monitors.
+   Attachment compaction (db/attachment_compaction.go, AttachmentCompactionManager): C14/Compaction.v -- legacy
+   documents (winner's map, inline and out-of-line non-winning bodies), content-addressed legacy data documents
+   with their compaction-id stamps, runs = Init (new id | resume) ; mark ; sweep ; cleanup under an adversarial
+   fault set (reads of out-of-line bodies, stamp writes) and scheduler oracles.  Hypothesis [cp_flags_ok]: the
+   writer's Conflict-flag invariant (a document with a live non-winning revision carries the flag).  The mark
+   phase's map is keyed by the data document id (commit 360f98e; the name-keyed map it replaced needed 'no two
+   bodies of one document use one attachment name for different legacy digests' and is refuted without it,
+   C14_Refuted.v).  [cp_fresh_mode]: the run
+   starts a new id; resuming a failed mark phase is refuted for the code as it is (C14_Refuted.v) and proved
+   safe for the repaired feed checkpoint ([fixed = true]).
    Only property theorems here, each closed by [exact]. *)
 From SG Require Import Base.Prelude C14.Attachments C14.AttachmentsProofs C14.AttachmentsTheorems
-                       C14.AttachmentsLinear C14.AllowList C14.AllowListProofs.
+                       C14.AttachmentsLinear C14.AllowList C14.AllowListProofs
+                       C14.Compaction C14.CompactionProofs C14.CompactionTheorems.
 Open Scope N_scope.
 
 (* att_safety: attachment data that was stored at some point of a history and that a reader of some leaf revision
@@ -116,6 +127,91 @@ Theorem C14_allow_list_scoped : forall es k,
 Proof. exact allow_list_scoped_all. Qed.
 Print Assumptions C14_allow_list_scoped.
 
+(* ---------------- attachment compaction ---------------- *)
+(* [bd]: what keys the mark phase's map -- true = the data document id (the code since commit 360f98e, what
+   C14_Corr.v replays), false = the attachment name (before; refuted in C14_Refuted.v).  Theorems that need no
+   hypothesis on the corpus hold for both; the others are stated for the code as it is, [bd = true]. *)
+
+(* compaction_safety (1): a run that starts a new id and reports success -- whatever the fault set, dry or not --
+   leaves every legacy data document in place that some revision body of some document lists (winner, inline or
+   out-of-line non-winning body that exists), same attachment name on several bodies or not *)
+Theorem C14_compaction_safety : forall fixed s r s' res,
+  cp_run true fixed s r = (s', res) -> cp_fresh_mode s r -> cp_flags_ok s -> cp_rstatus res = CpCompleted ->
+  forall g, cp_referenced s g -> cp_present s g -> cp_present s' g.
+Proof. exact cp_safety_docid. Qed.
+Print Assumptions C14_compaction_safety.
+
+(* compaction_safety (2): a run that reports an error (new id or resumed, any oracle) purged nothing and changed
+   no document *)
+Theorem C14_compaction_failed_purges_nothing : forall bd fixed s r s' res,
+  cp_run bd fixed s r = (s', res) -> cp_rstatus res = CpFailed ->
+  map fst (cp_atts s') = map fst (cp_atts s) /\ cp_rpurged res = 0 /\
+  cp_docs s' = cp_docs s /\ cp_bodies s' = cp_bodies s.
+Proof. exact cp_failed_purges_nothing. Qed.
+Print Assumptions C14_compaction_failed_purges_nothing.
+
+(* compaction_safety (3): a storage error on the read of ANY out-of-line body of a conflicted document is never
+   tolerated: the run reports an error (hence, by (2), purges nothing).  Only "not found" is skipped. *)
+Theorem C14_compaction_read_error_fails : forall bd fixed s r d x,
+  cp_fresh_mode s r -> In d (cp_docs s) -> cp_flag d = true -> In x (cp_ext d) ->
+  In x (cp_fread (cp_flt r)) -> cp_rstatus (snd (cp_run bd fixed s r)) = CpFailed.
+Proof. exact cp_read_error_fails. Qed.
+Print Assumptions C14_compaction_read_error_fails.
+
+(* ... and so is a failing stamp of a data document the mark phase wants to keep *)
+Theorem C14_compaction_stamp_error_fails : forall bd fixed s r d ks g,
+  cp_fresh_mode s r -> In d (cp_docs s) -> cp_doc_keys bd (cp_flt r) (cp_bodies s) d = Some ks ->
+  In g (map snd ks) -> In g (cp_fstamp (cp_flt r)) -> cp_rstatus (snd (cp_run bd fixed s r)) = CpFailed.
+Proof. exact cp_stamp_error_fails. Qed.
+Print Assumptions C14_compaction_stamp_error_fails.
+
+(* compaction_cleanup: a fault-free real run with an unused id succeeds, afterwards EXACTLY the referenced legacy
+   data documents remain, none carries the run's id any more, nothing is left to resume, and the purged counter
+   is the number of documents that disappeared *)
+Theorem C14_compaction_cleanup : forall fixed s r s' res,
+  cp_run true fixed s r = (s', res) -> cp_fresh_mode s r -> cp_flags_ok s -> cp_no_faults r ->
+  cp_id_unused (cp_rid r) s -> cp_dry r = false ->
+  cp_rstatus res = CpCompleted /\
+  (forall g, cp_present s' g <-> cp_present s g /\ cp_referenced s g) /\
+  cp_id_unused (cp_rid r) s' /\ cp_pending s' = None /\
+  cp_rpurged res = N.of_nat (length (cp_atts s) - length (cp_atts s')).
+Proof. exact cp_cleanup_exact_docid. Qed.
+Print Assumptions C14_compaction_cleanup.
+
+(* a dry run deletes nothing *)
+Theorem C14_compaction_dry_run_keeps : forall bd fixed s r s' res,
+  cp_run bd fixed s r = (s', res) -> cp_fresh_mode s r -> cp_dry r = true ->
+  map fst (cp_atts s') = map fst (cp_atts s).
+Proof. exact cp_dry_keeps. Qed.
+Print Assumptions C14_compaction_dry_run_keeps.
+
+(* compaction_idempotent: after a successful real run with an unused id, ANY further run (any faults, dry or
+   not, reset or not) leaves the set of data documents as it is; if it succeeds it reports 0 purged.  (For the
+   name-keyed map this held in the model only because the model fixes the order in which bodies are handled.) *)
+Theorem C14_compaction_idempotent : forall fixed s r1 s1 res1 r2 s2 res2,
+  cp_run true fixed s r1 = (s1, res1) -> cp_fresh_mode s r1 -> cp_id_unused (cp_rid r1) s -> cp_dry r1 = false ->
+  cp_rstatus res1 = CpCompleted ->
+  cp_run true fixed s1 r2 = (s2, res2) ->
+  map fst (cp_atts s2) = map fst (cp_atts s1) /\ (cp_rstatus res2 = CpCompleted -> cp_rpurged res2 = 0).
+Proof. exact (cp_idempotent true). Qed.
+Print Assumptions C14_compaction_idempotent.
+
+(* the code as it is, over ALL histories of runs (any faults, any oracles, failed and successful, dry and real)
+   in which no run resumes a failed one: no referenced legacy data document is ever lost *)
+Theorem C14_compaction_safety_all_histories : forall fixed rs s,
+  cp_flags_ok s -> cp_fresh_hist true fixed s rs = true ->
+  forall g, cp_referenced s g -> cp_present s g -> cp_present (cp_runs true fixed s rs) g.
+Proof. exact cp_safety_hist_docid. Qed.
+Print Assumptions C14_compaction_safety_all_histories.
+
+(* the repaired resume (the feed checkpoint of a failed mark phase never passes the failing document): ALL
+   histories, resumed runs included *)
+Theorem C14_compaction_repaired_resume_safe : forall rs s,
+  cp_flags_ok s -> cp_pending s = None ->
+  forall g, cp_referenced s g -> cp_present s g -> cp_present (cp_runs true true s rs) g.
+Proof. exact cp_safety_fixed_hist_docid. Qed.
+Print Assumptions C14_compaction_repaired_resume_safe.
+
 (* non-vacuity (conflicts allowed, sweep enabled, code as it is): content 5 under two names; kept by stub over two
    pushed updates; a lost attempt uploads content 7 (an orphan, accounted for by tried_keys); the last write
    drops the attachment and the sweep deletes the data.  The history satisfies the theorems' hypothesis *)
@@ -138,4 +234,26 @@ Proof.
   split; [right; vm_compute; reflexivity|]. split; [vm_compute; reflexivity|]. split.
   - eexists. split; [vm_compute; reflexivity|]. vm_compute. left. reflexivity.
   - split; [vm_compute; reflexivity|]. split; [vm_compute; left; reflexivity|]. vm_compute. discriminate.
+Qed.
+
+(* non-vacuity, compaction: a conflicted document whose winner and inline leaf both call their attachment "a"
+   (digests 1 and 2) plus an out-of-line leaf c=3, a linear document sharing digest 3, a tombstoned one; data
+   documents 1..4 (4 referenced by nobody).  The flags are sound; a run whose read of the out-of-line body fails
+   reports an error and keeps everything; a fault-free run succeeds, marks 4 and purges exactly digest 4 *)
+Definition nv_cstore : cp_store :=
+  CpSt [ CpDoc true [(0, CpAtt 1 true)] [[(0, CpAtt 2 true)]] [0];
+         CpDoc false [(0, CpAtt 3 true)] [] [];
+         CpDoc false [] [[]] [] ]
+       [(0, [(2, CpAtt 3 true)])] [(1, []); (2, []); (3, []); (4, [])] None.
+Example C14_compaction_nonvacuous :
+  cp_flags_ok nv_cstore /\
+  cp_referenced nv_cstore 1 /\ cp_present nv_cstore 1 /\
+  cp_rstatus (snd (cp_run true false nv_cstore (CpRun 1 true false (CpF [0] []) 0 []))) = CpFailed /\
+  map fst (cp_atts (fst (cp_run true false nv_cstore (CpRun 1 true false (CpF [] []) 0 [])))) = [1; 2; 3] /\
+  snd (cp_run true false nv_cstore (CpRun 1 true false (CpF [] []) 0 [])) = CpRes CpCompleted 4 1.
+Proof.
+  split; [apply cp_flags_okb_ok; vm_compute; reflexivity|]. split.
+  - eexists. split; [left; reflexivity|].
+    exists [(0, CpAtt 1 true)]. split; [left; reflexivity|left; reflexivity].
+  - split; [vm_compute; tauto|]. split; [vm_compute; reflexivity|]. split; vm_compute; reflexivity.
 Qed.
